@@ -257,9 +257,19 @@ def run_check(prop, tier, seed, workers=None, budget_s=None, scale=None, verbose
     violations = 0
     rc = 0
     if failures:
-        idx, f = failures[0]
         violations = len(failures)
-        rc = report_failure(scn, prop, f, seed)
+        rc = None
+        # prefer a failing run that reproduces on its own; fall back to re-executing the whole job (process history)
+        for idx, f in failures[:8]:
+            rc = report_failure(scn, prop, f, seed)
+            if rc is not None:
+                break
+        if rc is None:
+            idx, f = failures[0]
+            rc = report_job_failure(scn, prop, jobs[idx], ctx, f, seed)
+        if rc is None:
+            print("HARNESS: %d failing runs were seen but none reproduces, neither alone nor as the sequence of runs of its job" % len(failures))
+            rc = 2
     write_evidence(scn, prop, tier, seed, evals, sigs, counts, sim_time, samples, known, det,
                    budget_stop, time.time() - t0, wall_run, violations if rc == 1 else 0, len(results), len(jobs), workers)
     if rc == 0:
@@ -296,41 +306,81 @@ def determinism_sample(prop, tier, seed, scale, jobs, results, n):
             "fresh_interpreter_hashseed": env["PYTHONHASHSEED"]}
 
 
-def report_failure(scn, prop, f, batch_seed):
-    """Minimise, write the replay file, replay it in a fresh interpreter."""
+def in_fork(fn):
+    """Run fn() in a forked child of this process and return its picklable
+    result.  The reporting process itself never executes a scenario, so every
+    re-execution (minimisation candidates included) starts from the same
+    process state: code under test that keeps process-global state (a cache, a
+    class attribute) cannot make one candidate depend on the previous one."""
+    import pickle
+    r, w = os.pipe()
+    pid = os.fork()
+    if pid == 0:
+        code = 0
+        try:
+            os.close(r)
+            try:
+                data = pickle.dumps(("ok", fn()), protocol=4)
+            except BaseException as e:  # noqa
+                import traceback
+                data = pickle.dumps(("err", "%s: %s\n%s" % (type(e).__name__, e, traceback.format_exc())), protocol=4)
+            with os.fdopen(w, "wb") as fp:
+                fp.write(data)
+        except BaseException:
+            code = 1
+        finally:
+            os._exit(code)
+    os.close(w)
+    with os.fdopen(r, "rb") as fp:
+        data = fp.read()
+    os.waitpid(pid, 0)
+    if not data:
+        raise HarnessError("forked re-execution died without a result")
+    st, val = pickle.loads(data)
+    if st != "ok":
+        raise HarnessError("forked re-execution failed: %s" % val)
+    return val
+
+
+def _exec_isolated(scn, config, seed, tape, zero, trace=False):
+    def go():
+        r = run_scenario(scn, config, seed=seed, tape=tape, zero=zero, trace=trace)
+        fl = None if r.failure is None else (r.failure.clause, r.failure.detail, jsonable(r.failure.data))
+        return fl, r.tape, r.trace, r.digest
+    return in_fork(go)
+
+
+def report_failure(scn, prop, f, batch_seed, job=None, ctx=None):
+    """Minimise, write the replay file, replay it in a fresh interpreter.
+    Returns 1 (violation reported), 2 (harness error) or None (this failure
+    does not reproduce in isolation: the caller may try another one)."""
     config = unjson(f["config"])
     seed = f["seed"]
     zero = [tuple(z) for z in f.get("zero", [])]
     clause = f["failure"]["clause"]
 
     def test(tape):
-        r = run_scenario(scn, config, seed=seed, tape=tape, zero=zero)
-        if r.failure is not None and r.failure.clause == clause:
-            return r.tape
+        fl, eff, _, _ = _exec_isolated(scn, config, seed, tape, zero)
+        if fl is not None and fl[0] == clause:
+            return eff
         return None
 
     eff = test(f["tape"])
     if eff is None:
-        print("HARNESS: failure %s did not reproduce from its own tape (seed %d)" % (clause, seed))
-        dump = os.path.join(REPLAY_DIR, "%s-%d-unreproduced.json" % (prop, seed % 10**9))
-        os.makedirs(os.path.dirname(dump), exist_ok=True)
-        with open(dump, "w") as fp:
-            json.dump({"property": prop, "config": f["config"], "seed": seed, "tape": f["tape"],
-                       "failure": f["failure"], "zero": f.get("zero", [])}, fp, indent=1)
-        return 2
+        return None
     budget = getattr(scn, "SHRINK", {"runs": 2000, "seconds": 60})
     best, used = shrink(test, eff, budget["runs"], budget["seconds"])
-    r = run_scenario(scn, config, seed=seed, tape=best, zero=zero, trace=True)
-    if r.failure is None or r.failure.clause != clause:
+    fl, _, trace, digest = _exec_isolated(scn, config, seed, best, zero, trace=True)
+    if fl is None or fl[0] != clause:
         best = eff
-        r = run_scenario(scn, config, seed=seed, tape=best, zero=zero, trace=True)
+        fl, _, trace, digest = _exec_isolated(scn, config, seed, best, zero, trace=True)
     path = os.path.join(REPLAY_DIR, "%s-%d.json" % (prop, seed % 10**9))
     os.makedirs(os.path.dirname(path), exist_ok=True)
     doc = {
         "property": prop,
-        "clause": r.failure.clause,
-        "detail": r.failure.detail,
-        "data": jsonable(r.failure.data),
+        "clause": fl[0],
+        "detail": fl[1],
+        "data": fl[2],
         "scenario": scn.__name__,
         "config": jsonable(config),
         "seed": seed,
@@ -338,19 +388,23 @@ def report_failure(scn, prop, f, batch_seed):
         "zero": [list(z) for z in zero],
         "tape": best,
         "triggers": ["%s:%s:%s=%d" % (fam, s, label, v) for (fam, s, i, label, v) in tape_nonzero(best)],
-        "trace": r.trace,
-        "digest": r.digest,
+        "trace": trace,
+        "digest": digest,
         "shrink_runs": used,
         "repo_rev": repo_rev(),
         "python": "%d.%d.%d" % sys.version_info[:3],
     }
     with open(path, "w") as fp:
         json.dump(doc, fp, indent=1, ensure_ascii=True)
+    return _confirm_and_print(prop, path, doc, used)
+
+
+def _confirm_and_print(prop, path, doc, used):
     # replay in a fresh interpreter
     env = dict(os.environ)
     env["PYTHONHASHSEED"] = "4242"
     out = subprocess.run([PY, os.path.join(VERIF, "bin", "vcheck"), "replay", path], capture_output=True,
-                         text=True, env=env, timeout=600)
+                         text=True, env=env, timeout=1800)
     ok = out.returncode == 1 and ("REPLAY-REPRODUCED property=%s clause=%s" % (prop, doc["clause"])) in out.stdout \
         and ("digest=%s" % doc["digest"]) in out.stdout
     if not ok:
@@ -358,16 +412,58 @@ def report_failure(scn, prop, f, batch_seed):
             path, out.returncode, out.stdout[-2000:], out.stderr[-2000:]))
         return 2
     print("violation: %s" % (doc["detail"] if len(doc["detail"]) < 1500 else doc["detail"][:1500] + " ...[see replay file]"))
-    print("  minimised to %d non-zero choices in %d re-executions; triggers: %s" % (
-        len(doc["triggers"]), used, ", ".join(doc["triggers"][:12])))
+    if doc.get("job") is not None:
+        print("  the failing run only fails after the runs that preceded it in the same process: the replay file re-executes that "
+              "whole sequence (job %r)" % (doc["job"],))
+    else:
+        print("  minimised to %d non-zero choices in %d re-executions; triggers: %s" % (
+            len(doc["triggers"]), used, ", ".join(doc["triggers"][:12])))
     print("VIOLATION property=%s replay=%s" % (prop, path), flush=True)
     return 1
+
+
+def report_job_failure(scn, prop, job, ctx, f, batch_seed):
+    """Last resort: the failure depends on what earlier runs of the same job left behind in the process (the code under
+    test keeps process-global state).  The replay unit is then the job: its runs, in order, in one fresh process."""
+    def go():
+        _init_worker(prop, ctx)
+        return _work(job)
+    res = in_fork(go)
+    if not res["failures"]:
+        return None
+    g = res["failures"][0]
+    path = os.path.join(REPLAY_DIR, "%s-job-%d.json" % (prop, g["seed"] % 10**9))
+    os.makedirs(os.path.dirname(path), exist_ok=True)
+    doc = {
+        "property": prop, "clause": g["failure"]["clause"], "detail": g["failure"]["detail"], "data": g["failure"]["data"],
+        "scenario": scn.__name__, "job": job, "ctx": {"seed": ctx["seed"], "tier": ctx["tier"], "config": jsonable(ctx["config"])},
+        "seed": g["seed"], "batch_seed": batch_seed, "digest": res["digest"],
+        "trace": ["process history: the runs of job %r, in order, in one fresh process; the failing run is seed %d" % (job, g["seed"])],
+        "triggers": [], "repo_rev": repo_rev(), "python": "%d.%d.%d" % sys.version_info[:3],
+    }
+    with open(path, "w") as fp:
+        json.dump(doc, fp, indent=1, ensure_ascii=True)
+    return _confirm_and_print(prop, path, doc, 0)
 
 
 def replay_file(path, show=True):
     with open(path) as fp:
         doc = json.load(fp)
     scn = importlib.import_module(doc["scenario"])
+    if doc.get("job") is not None:
+        ctx = {"seed": doc["ctx"]["seed"], "tier": doc["ctx"]["tier"], "config": unjson(doc["ctx"]["config"]),
+               "findings": findings_mod.load(doc["property"])}
+        _init_worker(doc["property"], ctx)
+        res = _work(doc["job"])
+        if not res["failures"]:
+            print("REPLAY-CLEAN property=%s (job %r ran clean) digest=%s" % (doc["property"], doc["job"], res["digest"]))
+            return 0
+        g = res["failures"][0]
+        print("violation: %s" % g["failure"]["detail"][:1500])
+        print("REPLAY-REPRODUCED property=%s clause=%s digest=%s" % (doc["property"], g["failure"]["clause"], res["digest"]))
+        if g["failure"]["clause"] == doc["clause"]:
+            print("VIOLATION property=%s replay=%s" % (doc["property"], path))
+        return 1
     config = unjson(doc["config"])
     zero = [tuple(z) for z in doc.get("zero", [])]
     r = run_scenario(scn, config, seed=doc["seed"], tape=doc["tape"], zero=zero, trace=True)
